@@ -17,7 +17,7 @@ for pid in ALL:
         replay_cmd_template='./check %s --replay {path}' % pid,
         engine='coq-model+correspondence',
         level_claimed=dict(category='proof', text=info.get('level_text', 'Coq theorems over an executable Gallina model for all inputs/histories the property quantifies over; the model is tied to /repo on every run by a differential correspondence check (real code vs extracted model on the same operations and environment answers).'), design_ref=info.get('design_ref', 'DESIGN.md section 3, ' + pid)),
-        level_note=info.get('level_note', 'Trusted: Coq kernel, extraction (ExtrOcamlBasic only), hand-written model, Rust harness and its generators, rustc. No axioms. Assumptions: ' + '; '.join(info.get('assumptions', []))),
+        level_note=info.get('level_note', 'Trusted: Coq kernel, extraction (ExtrOcamlBasic only; a sample of every trace is re-evaluated inside Coq), hand-written model, constants / declarations translator (line parser) with its hand-written pairing, Rust harness and its generators, rustc. No axioms. Assumptions: ' + '; '.join(info.get('assumptions', []))),
         technique=info.get('technique', 'machine-checked proof in Coq over a hand-written model, tied to the source on every run by a differential correspondence check against the implementation (real code vs extracted model, sampled again inside Coq by vm_compute) and, for numeric constants, by a translator that regenerates them from the source and lets the kernel compare them with the model'),
     ))
 na = [dict(property_id=p, reason=props.NOT_YET.get(p, 'check not built yet in this round (no technique switch; see DESIGN.md section 6 for the order of work)')) for p in ALL if p not in props.PROPS]
